@@ -146,6 +146,19 @@ def beginSentenceState {ν : Type} (S : Search ν) (bos : Word) : State :=
   { length := 1, words := [bos], backoff := [(S.lookupUnigram bos).1.backoff] }
 def nullContextState : State := { length := 0 }
 
+/-- left-to-right scoring of a word sequence from a state: total log10 probability and final state -/
+def scoreSeq {ν : Type} (S : Search ν) (s : State) : List Word → Rat × State
+  | [] => (0, s)
+  | w :: ws =>
+    let r := fullScore S s w
+    let t := scoreSeq S r.2 ws
+    (r.1.prob + t.1, t.2)
+
+/-- the specification of a sequence score: Σ textbook scores along the growing (reversed) history -/
+def specSeq (a : Arpa) (h : List Word) : List Word → Rat
+  | [] => 0
+  | w :: ws => score a h w + specSeq a (w :: h) ws
+
 /-- only `[0, length)` of a state is meaningful -/
 def State.norm (s : State) : State := { s with words := s.words.take s.length, backoff := s.backoff.take s.length }
 
